@@ -1,6 +1,7 @@
 import MidnightZK.Proofs.C13.Tower
 import MidnightZK.Proofs.C13.Engine
 import MidnightZK.Proofs.C13.Consts
+import MidnightZK.Proofs.C13.Steps
 /-!
 # C13 — the pairing is bilinear, non-degenerate and consistent across entry points
 
@@ -184,6 +185,44 @@ example : gtMulBits (· * ·) (fun a => a * a) 1 (3 : ℕ) [0x00, 0x0d] = 3 ^ 13
 theorem gt_mul_drops_leading_bit {γ : Type} [Monoid γ] (x : γ) (bytes : List Nat) :
     gtMulBits (· * ·) (fun a => a * a) 1 x bytes = x ^ bitsVal ((bitsOfBytesBE bytes).drop 1) :=
   gtMulBits_eq_pow x bytes
+
+/-- The square-and-multiply used by the model for every plain exponentiation (`f^r` of the order
+checks, `ξ^((pⁱ−1)/k)` of the constant theorems, `f^((p¹²−1)/r)` of the naive final exponentiation)
+is the power `x ^ e`, in every monoid and for every exponent. -/
+theorem pow_bits_spec {γ : Type} [Monoid γ] (x : γ) (e : Nat) : powBits (· * ·) 1 x e = x ^ e :=
+  powBits_eq_pow x e
+
+/-! ## The two steps of the BN254 Miller loop (`derive/pairing.rs: double, add`) -/
+section
+variable {β : Type} [CommRing β]
+
+/-- **Doubling step**, over any commutative ring (the code's `square()` being `x·x`, see
+`quad_square_spec`): the accumulator becomes the Jacobian double (`a = 0`), and the coefficients given
+to `ell` are the tangent at `T = (X/Z², Y/Z³)` evaluated at `P`, times `4·y_T·Z⁶` — a factor from the
+twist's coefficient field, which the final exponentiation removes. -/
+theorem miller_double_step_spec (xT yT Z xP yP : β) :
+    (Bn.doubleCoeffs (fun x => x * x) (xT * Z ^ 2) (yT * Z ^ 3) Z).1
+      = (let X := xT * Z ^ 2; let Y := yT * Z ^ 3
+         (9 * X ^ 4 - 8 * X * Y ^ 2, 3 * X ^ 2 * (4 * X * Y ^ 2 - (9 * X ^ 4 - 8 * X * Y ^ 2)) - 8 * Y ^ 4, 2 * Y * Z))
+    ∧ (let c := (Bn.doubleCoeffs (fun x => x * x) (xT * Z ^ 2) (yT * Z ^ 3) Z).2
+       c.1 * yP + c.2.1 * xP + c.2.2 = 2 * Z ^ 6 * (2 * yT * (yP - yT) - 3 * xT ^ 2 * (xP - xT))) :=
+  ⟨Bn.doubleCoeffs_point _ _ _, Bn.doubleCoeffs_line xT yT Z xP yP⟩
+
+/-- **Addition step**: the accumulator becomes the mixed Jacobian sum `T + Q` (`madd-2007-bl`) and
+the coefficients are the chord through `Q` and `T` evaluated at `P`, times `2Z'`. -/
+theorem miller_add_step_spec (X Y Z qx qy xP yP : β) :
+    (Bn.addCoeffs (fun x => x * x) X Y Z qx qy).1
+      = (let H := qx * Z ^ 2 - X
+         let rr := 2 * (qy * Z ^ 3 - Y)
+         let V := 4 * X * H ^ 2
+         let J := 4 * H ^ 3
+         (rr ^ 2 - J - 2 * V, rr * (V - (rr ^ 2 - J - 2 * V)) - 2 * Y * J, 2 * Z * H))
+    ∧ (let c := (Bn.addCoeffs (fun x => x * x) X Y Z qx qy).2
+       c.1 * yP + c.2.1 * xP + c.2.2
+         = 2 * ((2 * Z * (qx * Z ^ 2 - X)) * (yP - qy) - (2 * (qy * Z ^ 3 - Y)) * (xP - qx))) :=
+  ⟨Bn.addCoeffs_point X Y Z qx qy, Bn.addCoeffs_line X Y Z qx qy xP yP⟩
+
+end
 
 /-! ## Tower arithmetic: the Rust formulas are the quotient-ring operations -/
 section
